@@ -101,10 +101,10 @@ Proof. vm_compute. reflexivity. Qed.
 Lemma project_root_builtin : mem_str project_root_key builtin_store = true.
 Proof. vm_compute. reflexivity. Qed.
 
-Lemma sig_in_reserved e k : In k (sig_of e) -> mem_str k reserved_names = true.
+Lemma sig_in_reserved e k : e <> ERepo -> In k (sig_of e) -> mem_str k reserved_names = true.
 Proof.
-  intro Hk. pose proof sigs_reserved as H. rewrite forallb_forall in H. apply H.
-  apply in_or_app. destruct e; cbn [sig_of] in Hk; [left | left | right]; exact Hk.
+  intros He Hk. pose proof sigs_reserved as H. rewrite forallb_forall in H. apply H.
+  apply in_or_app. destruct e; cbn [sig_of] in Hk; [left | left | right | contradiction]; exact Hk.
 Qed.
 
 Lemma in_firstn_in {A} (x : A) n : forall l, In x (firstn n l) -> In x l.
@@ -155,13 +155,13 @@ Proof.
 Qed.
 
 (* keywords whose names are not reserved are passed through untouched, whatever the entry point *)
-Lemma bind_kwargs_unreserved e call_kw :
+Lemma bind_kwargs_unreserved e call_kw : e <> ERepo ->
   (forall k, In k (keys call_kw) -> mem_str k reserved_names = false) -> bind_kwargs e call_kw = Some call_kw.
 Proof.
-  intro H. unfold bind_kwargs.
+  intros He H. unfold bind_kwargs.
   assert (Hs : forall kv, In kv call_kw -> mem_str (fst kv) (sig_of e) = false).
   { intros [k v] Hin. cbn. destruct (mem_str k (sig_of e)) eqn:E; [|reflexivity].
-    apply mem_str_In, sig_in_reserved in E. rewrite H in E; [discriminate|].
+    apply mem_str_In, (sig_in_reserved e k He) in E. rewrite H in E; [discriminate|].
     unfold keys. apply in_map_iff. exists (k, v). split; [reflexivity | exact Hin]. }
   rewrite existsb_none.
   - rewrite filter_all; [reflexivity|]. intros kv Hin. rewrite (Hs kv Hin). reflexivity.
@@ -209,8 +209,8 @@ Section LoopsGrow.
     induction fs as [|f fs IH]; intros dflt s s' H; cbn [load_files] in H.
     - inversion H; subst. apply grows_refl.
     - destruct (nth_error w f) as [fr|]; [|discriminate].
-      destruct (mm_for dflt fr) as [mm|]; [|discriminate].
       destruct (repo_find f (allm s)); [eapply IH; exact H|].
+      destruct (mm_for dflt fr) as [mm|]; [|discriminate].
       destruct (rec mm f fr s) as [s1|e] eqn:E; [|discriminate].
       eapply grows_trans; [eapply rec_grows; exact E | eapply IH; exact H].
   Qed.
@@ -294,7 +294,7 @@ Lemma run_op_loaded w c declared opn g o g' res n0 repo kw :
     ((added = [] /\ g' = g /\ c_grepo c = true /\ exists f, repo_find f (g_repo g) = Some res) \/ (res = n0 /\ added <> [])).
 Proof.
   unfold run_op. intros H Hb. rewrite Hb in H.
-  destruct (check_params declared kw); [inversion H|].
+  destruct (match o_entry o with ERepo => None | _ => check_params declared kw end); [inversion H|].
   destruct (is_str_entry (o_entry o) && negb (o_is_str o)); [inversion H|].
   assert (Fin : forall e prim fn fr reg,
     finish_load c g e prim (load_new (fuel_for w) w (c_prov c) opn 0 fn fr kw reg
@@ -307,7 +307,7 @@ Proof.
       right. split; [exact Hr | exact Hne].
     - intros s' E. eapply load_new_grows. exact E.
     - intros s' E. apply load_new_creates in E. exact E. }
-  destruct (o_entry o) as [|f|f].
+  destruct (o_entry o) as [|f|f|].
   - eapply Fin. exact H.
   - destruct (c_grepo c) eqn:Eg.
     + destruct (repo_find f (g_repo g)) as [id|] eqn:Ef.
@@ -321,9 +321,52 @@ Proof.
         left. split; [reflexivity|]. split; [reflexivity|]. split; [reflexivity|]. exists f. exact Ef.
       * destruct (nth_error w f) as [fr|]; [|inversion H]. eapply Fin. exact H.
     + destruct (nth_error w f) as [fr|]; [|inversion H]. eapply Fin. exact H.
+  - destruct (c_prov c); try solve [inversion H]. destruct (load_pats _ _ _ _); inversion H.
 Qed.
 
-Definition is_loaded (out : outcome) : bool := match out with OLoaded _ _ _ => true | _ => false end.
+(* load_models_in_model_repo: every model it creates carries the bound keyword arguments; the metamodel's
+   repository is not touched *)
+Section PatsGrow.
+  Variable rec : nat -> nat -> file -> lstate -> res.
+  Variable w : list file.
+  Variable kw : list (list N * N).
+  Variable opn : nat.
+  Hypothesis rec_grows : forall mm f fr s s', rec mm f fr s = Ok s' -> grows kw opn s s'.
+  Lemma load_pats_grows l : forall s s', load_pats rec w l s = Ok s' -> grows kw opn s s'.
+  Proof.
+    induction l as [|i l IH]; intros s s' H; cbn [load_pats] in H.
+    - inversion H; subst. apply grows_refl.
+    - destruct (i_plain i) as [fs|]; [|discriminate].
+      destruct (load_files rec w None fs s) as [s1|e] eqn:E; [|discriminate].
+      eapply grows_trans; [eapply load_files_grows; eassumption | apply IH; exact H].
+  Qed.
+End PatsGrow.
+
+Lemma run_op_repo w c declared opn g o g' n0 repo kw :
+  run_op w c declared opn g o = (g', ORepo n0 repo) ->
+  bind_kwargs (o_entry o) (o_kw o) = Some kw ->
+  o_entry o = ERepo /\ n0 = length (g_heap g) /\ g_repo g' = g_repo g /\
+  exists added, g_heap g' = g_heap g ++ added /\ Forall (good kw opn) added.
+Proof.
+  unfold run_op. intros H Hb. rewrite Hb in H.
+  destruct (match o_entry o with ERepo => None | _ => check_params declared kw end); [inversion H|].
+  destruct (is_str_entry (o_entry o) && negb (o_is_str o)); [inversion H|].
+  assert (Fin : forall e prim r, finish_load c g e prim r <> (g', ORepo n0 repo)).
+  { intros e prim r. unfold finish_load. destruct r; intro X; inversion X. }
+  destruct (o_entry o) as [|f|f|].
+  - exfalso. exact (Fin _ _ _ H).
+  - destruct (if c_grepo c then repo_find f (g_repo g) else None); [inversion H | exfalso; exact (Fin _ _ _ H)].
+  - destruct (if c_grepo c then repo_find f (g_repo g) else None); [inversion H|].
+    destruct (nth_error w f); [exfalso; exact (Fin _ _ _ H) | inversion H].
+  - destruct (c_prov c); try solve [inversion H].
+    destruct (load_pats _ _ _ _) as [s'|x] eqn:E; inversion H; subst; clear H.
+    split; [reflexivity|]. split; [reflexivity|]. split; [reflexivity|].
+    eapply load_pats_grows with (kw := kw) (opn := opn) in E.
+    + destruct E as (added & Ha & Fa). exists added. split; [exact Ha | exact Fa].
+    + intros mm f fr s0 s0' H0. eapply load_new_grows. exact H0.
+Qed.
+
+Definition is_loaded (out : outcome) : bool := match out with OLoaded _ _ _ | ORepo _ _ => true | _ => false end.
 
 (* a refused or failed operation leaves no trace *)
 Lemma run_op_not_loaded w c declared opn g o :
@@ -331,33 +374,49 @@ Lemma run_op_not_loaded w c declared opn g o :
 Proof.
   unfold run_op.
   destruct (bind_kwargs (o_entry o) (o_kw o)) as [kw|]; [|reflexivity].
-  destruct (check_params declared kw); [reflexivity|].
+  destruct (match o_entry o with ERepo => None | _ => check_params declared kw end); [reflexivity|].
   destruct (is_str_entry (o_entry o) && negb (o_is_str o)); [reflexivity|].
   assert (Fin : forall e prim r, is_loaded (snd (finish_load c g e prim r)) = false -> fst (finish_load c g e prim r) = g).
   { intros e prim r. unfold finish_load. destruct r; cbn; [discriminate | reflexivity]. }
-  destruct (o_entry o) as [|f|f].
+  destruct (o_entry o) as [|f|f|].
   - apply Fin.
   - destruct (if c_grepo c then repo_find f (g_repo g) else None); [reflexivity | apply Fin].
   - destruct (if c_grepo c then repo_find f (g_repo g) else None); [reflexivity|].
     destruct (nth_error w f); [apply Fin | reflexivity].
+  - destruct (c_prov c); try reflexivity. destruct (load_pats _ _ _ _); cbn; [discriminate | reflexivity].
 Qed.
 
 (* rejection happens exactly when a bound keyword is not declared, and names the first such keyword *)
 Lemma run_op_rejected w c declared opn g o kw :
+  o_entry o <> ERepo ->
   bind_kwargs (o_entry o) (o_kw o) = Some kw ->
   forall k, snd (run_op w c declared opn g o) = ORejected k <-> check_params declared kw = Some k.
 Proof.
-  intros Hb k. unfold run_op. rewrite Hb. destruct (check_params declared kw) as [k'|] eqn:E.
+  intros He Hb k. unfold run_op. rewrite Hb.
+  replace (match o_entry o with ERepo => None | _ => check_params declared kw end) with (check_params declared kw)
+    by (destruct (o_entry o); try reflexivity; contradiction).
+  destruct (check_params declared kw) as [k'|] eqn:E.
   - cbn. split; intro H; inversion H; reflexivity.
   - split; [|discriminate]. intro H. exfalso.
     destruct (is_str_entry (o_entry o) && negb (o_is_str o)); [discriminate|].
     assert (Fin : forall e prim r, snd (finish_load c g e prim r) <> ORejected k).
     { intros e prim r. unfold finish_load. destruct r; cbn; discriminate. }
-    destruct (o_entry o) as [|f|f].
+    destruct (o_entry o) as [|f|f|].
     + exact (Fin _ _ _ H).
     + destruct (if c_grepo c then repo_find f (g_repo g) else None); [discriminate | exact (Fin _ _ _ H)].
     + destruct (if c_grepo c then repo_find f (g_repo g) else None); [discriminate|].
       destruct (nth_error w f); [exact (Fin _ _ _ H) | discriminate].
+    + contradiction.
+Qed.
+
+(* load_models_in_model_repo never validates *)
+Lemma run_op_repo_never_rejects w c declared opn g o k :
+  o_entry o = ERepo -> snd (run_op w c declared opn g o) <> ORejected k.
+Proof.
+  intros He. unfold run_op. rewrite He.
+  destruct (bind_kwargs ERepo (o_kw o)) as [kw|]; [|discriminate].
+  cbn [is_str_entry andb]. destruct (c_prov c); try discriminate.
+  destruct (load_pats _ _ _ _); discriminate.
 Qed.
 
 Lemma run_op_typeerror w c declared opn g o :
@@ -365,15 +424,16 @@ Lemma run_op_typeerror w c declared opn g o :
 Proof.
   unfold run_op. destruct (bind_kwargs (o_entry o) (o_kw o)) as [kw|]; [|split; reflexivity].
   split; [|discriminate]. intro H. exfalso.
-  destruct (check_params declared kw); [discriminate|].
+  destruct (match o_entry o with ERepo => None | _ => check_params declared kw end); [discriminate|].
   destruct (is_str_entry (o_entry o) && negb (o_is_str o)); [discriminate|].
   assert (Fin : forall e prim r, snd (finish_load c g e prim r) <> OTypeError).
   { intros e prim r. unfold finish_load. destruct r; cbn; discriminate. }
-  destruct (o_entry o) as [|f|f].
+  destruct (o_entry o) as [|f|f|].
   - exact (Fin _ _ _ H).
   - destruct (if c_grepo c then repo_find f (g_repo g) else None); [discriminate | exact (Fin _ _ _ H)].
   - destruct (if c_grepo c then repo_find f (g_repo g) else None); [discriminate|].
     destruct (nth_error w f); [exact (Fin _ _ _ H) | discriminate].
+  - destruct (c_prov c); try discriminate. destruct (load_pats _ _ _ _); discriminate.
 Qed.
 
 (* ---------------------------------------------------------------- whole histories *)
@@ -388,11 +448,13 @@ Lemma run_op_step w c declared opn g o :
                    g_heap (fst (run_op w c declared opn g o)) = g_heap g ++ added /\ Forall (good kw opn) added.
 Proof.
   destruct (run_op w c declared opn g o) as [g' out] eqn:E. destruct (is_loaded out) eqn:L.
-  - destruct out as [| | | |res n0 repo]; try discriminate. right.
-    destruct (bind_kwargs (o_entry o) (o_kw o)) as [kw|] eqn:Hb.
+  - right. destruct (bind_kwargs (o_entry o) (o_kw o)) as [kw|] eqn:Hb;
+      [|unfold run_op in E; rewrite Hb in E; inversion E; subst; discriminate].
+    destruct out as [| | | |res n0 repo|n0 repo]; try discriminate.
     + destruct (run_op_loaded _ _ _ _ _ _ _ _ _ _ _ E Hb) as (_ & added & Ha & Fa & _).
       exists kw, added. split; [reflexivity|]. split; assumption.
-    + unfold run_op in E. rewrite Hb in E. inversion E.
+    + destruct (run_op_repo _ _ _ _ _ _ _ _ _ _ E Hb) as (_ & _ & _ & added & Ha & Fa).
+      exists kw, added. split; [reflexivity|]. split; assumption.
   - left. pose proof (run_op_not_loaded w c declared opn g o) as H. rewrite E in H. apply H. exact L.
 Qed.
 
@@ -414,29 +476,31 @@ Qed.
 (* ---------------------------------------------------------------- statements used by Props/C27.v *)
 
 Lemma validated w c declared opn g o kw :
+  o_entry o <> ERepo ->
   bind_kwargs (o_entry o) (o_kw o) = Some kw ->
   ((exists k, snd (run_op w c declared opn g o) = ORejected k) <->
    (exists k, In k (keys (o_kw o)) /\ ~ In k (sig_of (o_entry o)) /\ ~ In k declared)).
 Proof.
-  intro Hb. split.
-  - intros [k H]. apply (run_op_rejected w c declared opn g o kw Hb) in H.
+  intros He Hb. split.
+  - intros [k H]. apply (run_op_rejected w c declared opn g o kw He Hb) in H.
     apply check_params_some in H as (pre & v & post & Hk & Hn & _). exists k.
     assert (Hin : In k (keys kw)).
     { rewrite Hk. unfold keys. rewrite map_app. apply in_or_app. right. left. reflexivity. }
     apply (bind_kwargs_keys _ _ _ k Hb) in Hin as [H1 H2]. split; [exact H1|]. split; [exact H2 | exact Hn].
   - intros (k & H1 & H2 & H3).
     destruct (check_params declared kw) as [k'|] eqn:E.
-    + exists k'. apply (run_op_rejected w c declared opn g o kw Hb). exact E.
+    + exists k'. apply (run_op_rejected w c declared opn g o kw He Hb). exact E.
     + exfalso. apply H3. rewrite check_params_none in E. apply E.
       apply (bind_kwargs_keys _ _ _ k Hb). split; assumption.
 Qed.
 
 Lemma declared_accepted names e call_kw :
+  e <> ERepo ->
   (forall k, In k (keys call_kw) -> In k (declare builtin_store names)) ->
   bind_kwargs e call_kw = Some call_kw /\ check_params (declare builtin_store names) call_kw = None.
 Proof.
-  intro H. split.
-  - apply bind_kwargs_unreserved. intros k Hk. apply (metamodel_declared_no_reserved names). apply H. exact Hk.
+  intros He H. split.
+  - apply bind_kwargs_unreserved; [exact He|]. intros k Hk. apply (metamodel_declared_no_reserved names). apply H. exact Hk.
   - apply check_params_none. exact H.
 Qed.
 
@@ -452,7 +516,12 @@ Lemma declared_everywhere w c names opn g o g' res n0 repo :
   run_op w c (declare builtin_store names) opn g o = (g', OLoaded res n0 repo) ->
   exists added, g_heap g' = g_heap g ++ added /\ Forall (good (o_kw o) opn) added.
 Proof.
-  intros Hd H. destruct (declared_accepted names (o_entry o) (o_kw o) Hd) as [Hb _].
+  intros Hd H.
+  assert (He : o_entry o <> ERepo).
+  { intro He. unfold run_op in H. rewrite He in H.
+    destruct (bind_kwargs ERepo (o_kw o)); [|inversion H]. cbn [is_str_entry andb] in H.
+    destruct (c_prov c); try solve [inversion H]. destruct (load_pats _ _ _ _); inversion H. }
+  destruct (declared_accepted names (o_entry o) (o_kw o) He Hd) as [Hb _].
   destruct (run_op_loaded _ _ _ _ _ _ _ _ _ _ _ H Hb) as (_ & added & Ha & Fa & _).
   exists added. split; assumption.
 Qed.
@@ -583,8 +652,8 @@ Section LoopsFuel.
     induction fs as [|f fs IH]; intros dflt s s' H; cbn [load_files] in H.
     - inversion H; subst. apply repo_le_refl.
     - destruct (nth_error w f) as [fr|]; [|discriminate].
-      destruct (mm_for dflt fr) as [mm|]; [|discriminate].
       destruct (repo_find f (allm s)); [eapply IH; exact H|].
+      destruct (mm_for dflt fr) as [mm|]; [|discriminate].
       destruct (rec mm f fr s) as [s1|e] eqn:E; [|discriminate].
       eapply repo_le_trans; [eapply rec_mono; exact E | eapply IH; exact H].
   Qed.
@@ -619,8 +688,8 @@ Section LoopsFuel.
   Proof.
     induction fs as [|f fs IH]; intros dflt s Hb; cbn [load_files]; [discriminate|].
     destruct (nth_error w f) as [fr|] eqn:En; [|discriminate].
-    destruct (mm_for dflt fr) as [mm|]; [|discriminate].
     destruct (repo_find f (allm s)) eqn:Ef; [apply IH; exact Hb|].
+    destruct (mm_for dflt fr) as [mm|]; [|discriminate].
     destruct (rec mm f fr s) as [s1|e] eqn:E.
     - apply IH. pose proof (unreg_mono w _ _ (rec_mono _ _ _ _ _ E)). lia.
     - intro X. inversion X; subst. exact (rec_nofuel mm f fr s Ef En Hb E).
@@ -638,6 +707,15 @@ Section LoopsFuel.
       destruct (load_files rec w (Some mm) fs s1) as [s2|e] eqn:E1.
       + apply IH. pose proof (unreg_mono w _ _ (load_files_mono _ _ _ _ E1)). lia.
       + intro X. inversion X; subst. exact (load_files_nofuel fs (Some mm) s1 Hb1 E1).
+  Qed.
+
+  Lemma load_pats_nofuel l : forall s, unreg w (allm s) <= bound -> load_pats rec w l s <> Fail EFuel.
+  Proof.
+    induction l as [|i l IH]; intros s Hb; cbn [load_pats]; [discriminate|].
+    destruct (i_plain i) as [fs|]; [|discriminate].
+    destruct (load_files rec w None fs s) as [s1|e] eqn:E.
+    - apply IH. pose proof (unreg_mono w _ _ (load_files_mono _ _ _ _ E)). lia.
+    - intro X. inversion X; subst. exact (load_files_nofuel fs None s Hb E).
   Qed.
 End LoopsFuel.
 
@@ -691,18 +769,24 @@ Lemma run_op_never_out_of_fuel w c declared opn g o : snd (run_op w c declared o
 Proof.
   unfold run_op.
   destruct (bind_kwargs (o_entry o) (o_kw o)) as [kw|]; [|discriminate].
-  destruct (check_params declared kw); [discriminate|].
+  destruct (match o_entry o with ERepo => None | _ => check_params declared kw end); [discriminate|].
   destruct (is_str_entry (o_entry o) && negb (o_is_str o)); [discriminate|].
   assert (Fin : forall e prim fn fr reg s0,
     snd (finish_load c g e prim (load_new (fuel_for w) w (c_prov c) opn 0 fn fr kw reg s0)) <> OErr EFuel).
   { intros e prim fn fr reg s0. unfold finish_load.
     destruct (load_new (fuel_for w) w (c_prov c) opn 0 fn fr kw reg s0) as [s'|x] eqn:E; cbn [snd]; [discriminate|].
     intro X. inversion X; subst. revert E. unfold fuel_for. apply load_new_top_nofuel. lia. }
-  destruct (o_entry o) as [|f|f].
+  destruct (o_entry o) as [|f|f|].
   - apply Fin.
   - destruct (if c_grepo c then repo_find f (g_repo g) else None); [discriminate | apply Fin].
   - destruct (if c_grepo c then repo_find f (g_repo g) else None); [discriminate|].
     destruct (nth_error w f); [apply Fin | discriminate].
+  - destruct (c_prov c); try discriminate.
+    destruct (load_pats _ _ _ _) as [s'|x] eqn:E; cbn [snd]; [discriminate|].
+    intro X. inversion X; subst. revert E. apply load_pats_nofuel with (bound := length w).
+    + intros mm f fr s0 s0' H0. eapply load_new_mono. exact H0.
+    + intros mm f fr s0 Hf Hn Hb. apply load_new_import_nofuel; [assumption | assumption | lia].
+    + apply unreg_le_len.
 Qed.
 
 (* ---------------------------------------------------------------- repository entries always denote existing model objects *)
@@ -747,8 +831,8 @@ Section LoopsOk.
     induction fs as [|f fs IH]; intros dflt s s' Hs H; cbn [load_files] in H.
     - inversion H; subst. exact Hs.
     - destruct (nth_error w f) as [fr|]; [|discriminate].
-      destruct (mm_for dflt fr) as [mm|]; [|discriminate].
       destruct (repo_find f (allm s)); [eapply IH; eassumption|].
+      destruct (mm_for dflt fr) as [mm|]; [|discriminate].
       destruct (rec mm f fr s) as [s1|e] eqn:E; [|discriminate].
       eapply IH; [eapply rec_sok; eassumption | exact H].
   Qed.
@@ -766,6 +850,15 @@ Section LoopsOk.
       apply (IH s2 s'); [eapply load_files_sok; eassumption | | exact H].
       pose proof (grows_length _ _ _ _ (load_files_grows rec w kw opn rec_grows fs _ _ _ E1)) as L.
       cbn [heap s1] in L. lia.
+  Qed.
+
+  Lemma load_pats_sok l : forall s s', sok s -> load_pats rec w l s = Ok s' -> sok s'.
+  Proof.
+    induction l as [|i l IH]; intros s s' Hs H; cbn [load_pats] in H.
+    - inversion H; subst. exact Hs.
+    - destruct (i_plain i) as [fs|]; [|discriminate].
+      destruct (load_files rec w None fs s) as [s1|e] eqn:E; [|discriminate].
+      eapply IH; [eapply load_files_sok; eassumption | exact H].
   Qed.
 End LoopsOk.
 
@@ -794,7 +887,7 @@ Lemma run_op_gok w c declared opn g o : gok g -> gok (fst (run_op w c declared o
 Proof.
   intro Hg. unfold run_op.
   destruct (bind_kwargs (o_entry o) (o_kw o)) as [kw|]; [|exact Hg].
-  destruct (check_params declared kw); [exact Hg|].
+  destruct (match o_entry o with ERepo => None | _ => check_params declared kw end); [exact Hg|].
   destruct (is_str_entry (o_entry o) && negb (o_is_str o)); [exact Hg|].
   assert (Fin : forall e prim fn fr reg,
     gok (fst (finish_load c g e prim (load_new (fuel_for w) w (c_prov c) opn 0 fn fr kw reg
@@ -808,11 +901,17 @@ Proof.
     destruct (c_grepo c); [exact S1|].
     eapply repo_ok_heap; [exact Hg|].
     apply load_new_grows in E. apply grows_length in E. exact E. }
-  destruct (o_entry o) as [|f|f].
+  destruct (o_entry o) as [|f|f|].
   - apply Fin.
   - destruct (if c_grepo c then repo_find f (g_repo g) else None); [exact Hg | apply Fin].
   - destruct (if c_grepo c then repo_find f (g_repo g) else None); [exact Hg|].
     destruct (nth_error w f); [apply Fin | exact Hg].
+  - destruct (c_prov c); try exact Hg.
+    destruct (load_pats _ _ _ _) as [s'|x] eqn:E; cbn [fst]; [|exact Hg].
+    unfold gok. cbn [g_heap g_repo]. eapply repo_ok_heap; [exact Hg|].
+    eapply load_pats_grows with (kw := kw) (opn := opn) in E.
+    + apply grows_length in E. exact E.
+    + intros mm f fr s0 s0' H0. eapply load_new_grows. exact H0.
 Qed.
 
 Lemma end_state_gok w c declared : forall ops opn g, gok g -> gok (end_state w c declared opn g ops).
